@@ -73,6 +73,8 @@ class Reporter:
             if f.key == key:
                 self.known_seen[key] = f.text
                 return None
+        if any(k == key for k, _, _ in self.violations):
+            return None  # same minimised key already reported in this run
         path = write_replay(self.prop_id, self.seed, payload)
         self.violations.append((key, path, text))
         return path
